@@ -27,6 +27,9 @@ var sizeLadder = []int{255, 256, 257, 1023, 1024, 1025, 4095, 4096, 4097}
 var sizeLadderBig = []int{65535, 65536, 65537, 131071, 131072, 131073, 196608}
 
 func (g *Gen) ladder() (int, bool) {
+	if g.small > 0 {
+		return 0, false
+	}
 	if g.Cfg.Ladder <= 0 || !g.R.Chance(1, g.Cfg.Ladder) {
 		return 0, false
 	}
@@ -49,6 +52,22 @@ type Gen struct {
 	R   *prng.Rand
 	Cfg GenCfg
 	min map[string]int // minimal recursion depth needed per record; -1 = uninhabited
+	// small > 0 while the elements of a many-element container are drawn: they stay tiny
+	small int
+}
+
+// manyLadder holds element counts around the preallocation hint of the stream decoders
+// (64) and around one byte's worth of elements.
+var manyLadder = []int{63, 64, 65, 66, 127, 128, 129, 255, 256, 257}
+
+func (g *Gen) many() (int, bool) {
+	if g.small > 0 {
+		return 0, false
+	}
+	if _, ok := g.ladder(); !ok {
+		return 0, false
+	}
+	return manyLadder[g.R.Intn(len(manyLadder))], true
 }
 
 func NewGen(s *schema.Schema, r *prng.Rand, cfg GenCfg) *Gen {
@@ -142,7 +161,7 @@ func (g *Gen) Type(t schema.Type, budget int) Value {
 	case t.Array != nil:
 		n := g.count()
 		if t.Array.Prim == "byte" || t.Array.Prim == "uint8" {
-			if g.Cfg.LongProb > 0 && r.Chance(1, g.Cfg.LongProb) {
+			if g.small == 0 && g.Cfg.LongProb > 0 && r.Chance(1, g.Cfg.LongProb) {
 				n = g.Cfg.LongLen
 			}
 			if l, ok := g.ladder(); ok {
@@ -153,12 +172,22 @@ func (g *Gen) Type(t schema.Type, budget int) Value {
 				n = l // 255/256/257 elements of a small scalar
 			}
 		}
+		isMany := false
+		if l, ok := g.many(); ok && n > 0 {
+			n, isMany = l, true // many elements of any type: strings, records, containers
+		}
 		if g.minOfType(*t.Array) > budget {
 			n = 0
 		}
 		v := Value{}
+		if isMany {
+			g.small++
+		}
 		for i := 0; i < n; i++ {
 			v.Elems = append(v.Elems, g.Type(*t.Array, budget))
+		}
+		if isMany {
+			g.small--
 		}
 		if n == 0 && !g.Cfg.NoNilDist && r.Bool() {
 			v.Nil = true
@@ -166,11 +195,19 @@ func (g *Gen) Type(t schema.Type, budget int) Value {
 		return v
 	case t.MapV != nil:
 		n := g.count()
+		isMany := false
+		if l, ok := g.many(); ok && n > 0 {
+			n, isMany = l, true
+		}
 		if g.minOfType(*t.MapV) > budget {
 			n = 0
 		}
 		v := Value{}
 		seen := map[string]bool{}
+		if isMany {
+			g.small++
+			defer func() { g.small-- }()
+		}
 		for i := 0; i < n; i++ {
 			k := g.key(t.MapK)
 			kb := string(keyBytes(k))
@@ -199,6 +236,9 @@ func (g *Gen) Type(t schema.Type, budget int) Value {
 }
 
 func (g *Gen) count() int {
+	if g.small > 0 {
+		return g.R.Intn(2)
+	}
 	switch g.R.Intn(6) {
 	case 0, 1:
 		return 0
@@ -362,7 +402,7 @@ func (g *Gen) str() []byte {
 		}
 		return b
 	}
-	if g.Cfg.LongProb > 0 && r.Chance(1, g.Cfg.LongProb) {
+	if g.small == 0 && g.Cfg.LongProb > 0 && r.Chance(1, g.Cfg.LongProb) {
 		b := r.Bytes(g.Cfg.LongLen)
 		for i := range b {
 			b[i] = 'a' + b[i]%26
